@@ -15,7 +15,7 @@ class Obs(types.SimpleNamespace):
 
 
 def run_case(plan_factory, requests=(), decision="resume", *, fail_call=None, fail_status=None, fail_attr=False, re_kwargs=None, max_decisions=3,
-             followup=True, subs=None, md_kw=None, setup=None, on_docs=None, updates=(), settle_paused=False, prelude=None, mid_paused=None):
+             followup=True, subs=None, md_kw=None, setup=None, on_docs=None, updates=(), settle_paused=False, prelude=None, mid_paused=None, post=None):
     """
     plan_factory(lab) -> (plan generator, devices dict)
     requests: iterable of dicts {step:int, kind:str, ...}; fired once when the pump step counter equals `step`
@@ -169,6 +169,9 @@ def run_case(plan_factory, requests=(), decision="resume", *, fail_call=None, fa
             obs.followup_deferred = RE.deferred_pause_requested
             obs.followup = dict(outcome=out[0], exc=out[1] if out[0] != "ret" else None, state=str(RE.state),
                                 docs=[n_ for n_, _ in lab.docs[nd:]], all_docs=lab.docs[nd:])
+        if post is not None:
+            lab.hook = None
+            post(lab, obs)  # harness-specific continuation on the same engine (e.g. a later, different call)
         obs.out = lab.out.getvalue()
         return obs
     finally:
